@@ -52,7 +52,7 @@ CHECKS = {
   design="DESIGN.md §5 C14"),
  "C15": dict(
   technique="runtime monitor: abstract model of independent growable tables checked after every operation of bounded-exhaustive and random operation histories + structural invariant hooks (block layout, stack heads, intern cache)",
-  text="Every history of length<=4 (6 thorough) over 9 operation kinds on SimpleGarnishData and on BasicGarnishData under 9 size/growth configurations (initial 0,1,2 x +1,+2,x2, default), with a full read-back of all data values, symbol names, instructions, jump entries, registers, value stack and frame chain plus the block-layout invariant after every single operation; every interning sequence of length 3 (4) over 15 constants including hash-stream alias pairs; random histories of 1500 (10000) operations.",
+  text="Every history of length<=4 (6 thorough) over 9 operation kinds on SimpleGarnishData and on BasicGarnishData under 9 size/growth configurations (initial 0,1,2 x +1,+2,x2, default), with a full read-back of all data values, symbol names, instructions, jump entries, registers, value stack and frame chain plus the block-layout invariant after every single operation; every interning sequence of length 3 (4) over 15 constants including hash-stream alias pairs; random histories of 1500 (6000) operations.",
   note="trusts the table model; storage settings are reached through a verif_hooks constructor because the crate does not export their types",
   design="DESIGN.md §5 C15"),
  "C16": dict(
